@@ -629,9 +629,22 @@ def run_unif(unit, ctx):
         check_unif_case(ctx, data)
 
 
+NEAR = [3e-9, 1e-12, 2.0 ** -52]     # distinct values closer than any sorting/tie tolerance a kernel might use
+
+
 def run_lattice(unit, ctx):
     seed = unit["seed"]
     first = True
+    if unit.get("near"):
+        # samples holding two distinct, nearly equal values, in every order (n <= 4)
+        for base in ([0.4], [0.25, 0.6], [0.1, 0.5, 0.9]):
+            for eps in NEAR:
+                for pos in range(len(base)):
+                    vals = list(base) + [base[pos] + eps]
+                    for data in itertools.permutations(vals):
+                        ctx.count("lattice.near_equal_samples")
+                        check_unif_case(ctx, list(data))
+        return
     for n in unit["ns"]:
         for d in unit["deltas"]:
             vals = [(i + d) / n for i in range(n)]
@@ -790,6 +803,7 @@ def units(tier, seed):
     d = DELTAS[seed % 4]
     for n in (7, 50, 300):
         us.append({"kind": "lattice", "ns": [n], "deltas": [d, 0.5], "seed": seed})
+    us.append({"kind": "lattice", "near": True, "ns": [], "deltas": [], "seed": seed})
     us.append({"kind": "reject", "sizes": [1, 2, 3] if quick else [1, 2, 3, 4]})
     # ---- alpha
     L3 = [0.0, 1.0, 2.0]
